@@ -32,7 +32,7 @@ func (c03) NumCases(tier string) int {
 }
 
 func (c03) Rule() string {
-	return "statements of the full language (every scalar/aggregate function, aliases, ORDER BY, GROUP BY, LIMIT, PUT/REMOVE/DELETE) over 8 store families (incl. one whose values are all JSON documents with nested objects and arrays of objects) of 0..4 batches; each drained row-at-a-time and in batches at 3 batch sizes from {1,2,3,5,32}(+); rows compared by content (tie runs under ORDER BY as multisets), write statements by post-state. Non-trivial: batch mode completed without error and returned at least one row (or changed the store); distinct by (statement text, store) hash."
+	return "statements of the full language (every scalar/aggregate function, aliases, ORDER BY, GROUP BY, LIMIT, PUT/REMOVE/DELETE) over 9 store families (incl. one whose values are all JSON documents with nested objects and arrays of objects, and one of key/value tuples built to collide when joined with a separator) of 0..4 batches; each drained row-at-a-time and in batches at 3 batch sizes from {1,2,3,5,32}(+); rows compared by content (tie runs under ORDER BY as multisets), write statements by post-state. Non-trivial: batch mode completed without error and returned at least one row (or changed the store); distinct by (statement text, store) hash."
 }
 
 func (c03) Assumptions() []string {
@@ -58,7 +58,7 @@ func (c03) Gates(tier string, m map[string]int64) []rt.Gate {
 	return gs
 }
 
-var c03Families = []string{gen.FTiny, gen.FNum, gen.FNum, gen.FFloat, gen.FMixed, gen.FMixed, gen.FBinary, gen.FWide, gen.FWide, gen.FTies, gen.FRel, gen.FRel, gen.FJSON}
+var c03Families = []string{gen.FTiny, gen.FNum, gen.FNum, gen.FFloat, gen.FMixed, gen.FMixed, gen.FBinary, gen.FWide, gen.FWide, gen.FTies, gen.FRel, gen.FRel, gen.FJSON, gen.FSep}
 
 func fullGenFor(c *rt.Ctx, st *gen.Store, r *rt.Rand) *gen.FullGen {
 	g := &gen.FullGen{R: r, KeyLits: st.KeyLiterals(r), Avoid: c.Avoid, Family: st.Family}
@@ -85,6 +85,26 @@ func (k c03) Run(c *rt.Ctx) {
 		g.RefBias = 3
 	}
 	stmt := g.Any(r.Range(1, 3))
+	if st.Family == gen.FSep && r.Chance(2, 3) {
+		// grouping by several raw fields over tuples built to collide when joined
+		k0, v0 := gen.Key(), gen.Value()
+		flds := [][]gen.Field{
+			{{E: k0, Alias: "gk"}, {E: v0, Alias: "gv"}},
+			{{E: v0, Alias: "gv"}, {E: k0, Alias: "gk"}},
+			{{E: gen.Call("upper", k0), Alias: "gk"}, {E: v0, Alias: "gv"}},
+			{{E: k0, Alias: "gk"}, {E: gen.Call("lower", v0), Alias: "gv"}, {E: gen.Call("strlen", k0), Alias: "gn"}},
+		}[r.Intn(4)]
+		stmt = &gen.Stmt{Kind: "select", Where: gen.Bin("!=", gen.Key(), gen.Str("zz"))}
+		for _, f := range flds {
+			stmt.Fields = append(stmt.Fields, f)
+			stmt.GroupBy = append(stmt.GroupBy, f.Alias)
+		}
+		agg := []*gen.Node{gen.Call("count", gen.Int(1)), gen.Call("group_concat", gen.Key(), gen.Str("+")), gen.Call("max", gen.Call("strlen", gen.Value()))}[r.Intn(3)]
+		stmt.Fields = append(stmt.Fields, gen.Field{E: agg, Alias: "ag"})
+		if r.Chance(1, 3) {
+			stmt.HasLim, stmt.Start, stmt.Count = true, r.Intn(2), r.Range(1, 4)
+		}
+	}
 	style := gen.Style{Paren: []int{0, 0, 1, 3}[r.Intn(4)], R: r.Fork(), Case: r.Chance(1, 4)}
 	query := stmt.Text(style)
 	sizes := []int{pickBatch(c), pickBatch(c), pickBatch(c)}
